@@ -133,10 +133,20 @@ def rule_castle_pre(ctx):
     if len(avail) == 1:
         cons = C.constraints_for(ix, b, sym, avail[0])
         rights = any(c[3][0] == "call" and "eq" in c[3][1] and any(isinstance(x, tuple) and x[0] == "call" and x[1] == B_ + "castle_status" and x[2][1] == ("arg", "kind") for x in walk(c[3])) and c04.status_of(c[3]) == "Available" and True in c[1] for c in cons)
+        # `x == Available` through the derived equality is also recorded as discr(x) in {Available}
+        rights = rights or any(c[3][0] == "discr" and c[1] == frozenset(["Available"]) and mir.strip_copies(c[3][1])[0] == "call" and mir.strip_copies(c[3][1])[1] == B_ + "castle_status"
+                               and mir.strip_copies(c[3][1])[2][1] == ("arg", "kind") for c in cons)
         both = None
         for c in cons:
+            # `r.is_ok()` or `match r { Ok(()) => .. }`
             if c[3][0] == "call" and c[3][1] == "std::result::Result::is_ok" and True in c[1]:
-                inner = mir.strip_copies(c[3][2][0])
+                tested = c[3][2][0]
+            elif c[3][0] == "discr" and c[1] == frozenset(["Ok"]):
+                tested = c[3][1]
+            else:
+                tested = None
+            if tested is not None:
+                inner = mir.strip_copies(mir.strip_refs(tested))
                 if inner[0] == "call" and inner[1] == "std::result::Result::and":
                     parts = [mir.strip_copies(x) for x in inner[2]]
                     names = sorted(p[1] for p in parts if p[0] == "call")
@@ -158,6 +168,21 @@ def rule_castle_pre(ctx):
                                 names.append(r[1])
                                 ctx.functions.add(clo[1])
                     both = sorted(names) == [B_ + "no_checks_castling", B_ + "no_pieces_between_castling"] and same_kind
+        if not both:
+            # the two path tests as separate conjuncts: `a(kind).is_ok() && b(kind).is_ok()`, `if let Ok(()) = a(kind)`,
+            # or a combinator expanded into those
+            okd = set()
+            for c in cons:
+                e = c[3]
+                inner = None
+                if e[0] == "call" and e[1] == "std::result::Result::is_ok" and c[1] == frozenset([True]):
+                    inner = mir.strip_copies(mir.strip_refs(e[2][0]))
+                elif e[0] == "discr" and c[1] == frozenset(["Ok"]):
+                    inner = mir.strip_copies(mir.strip_refs(e[1]))
+                if inner is not None and inner[0] == "call" and len(inner[2]) == 2 and inner[2][1] == ("arg", "kind"):
+                    okd.add(inner[1])
+            if {B_ + "no_checks_castling", B_ + "no_pieces_between_castling"} <= okd:
+                both = True
         ctx.check(rights and both, "castling_ability:three-conjuncts", "Available requires castle_status(kind) == Available && no_pieces_between(kind).and(no_checks(kind)).is_ok()", b.where(avail[0]),
                   bad_what="the Available result is not guarded by all of: the right, the empty path and the unattacked path for the same kind (rights: %s, both path tests: %s)" % (rights, both))
     # which (kind, side to move) pairs are refused before anything else is looked at: per-case constant propagation
@@ -473,11 +498,14 @@ def rule_capture_src(ctx):
         ok = ok and "get_piece" in expr_str(pe) and "From<u8>>::from" in expr_str(sq)
     ctx.check(ok, "get_all_moves:own-pieces-only", "moves are generated for the piece on each square only if its colour is current_turn", b.where(0), bad_what="the generator guard is not `piece colour == current_turn`")
     n = 0
-    for cb in ix.closures_of(B_ + "get_all_moves"):
+    # the annotation sits in the closure mapped over the generated moves, or in a loop over them in the function itself
+    for cb in ix.closures_of(B_ + "get_all_moves") + [b]:
         csym = mir.Sym(cb, ix)
         rows = {}
+        mv = None
         for bi, i, s in cb.stmts():
             if fields_of(s["lhs"])[-1:] == ("captured_piece",):
+                mv = cb.local_name(s["lhs"]["l"])
                 for vb, v in C.value_cases(cb, csym, bi, s["rv"]):
                     cons = C.constraints_for(ix, cb, csym, vb)
                     ep = [next(iter(c[1])) for c in cons if "en_passant" in c[0] and len(c[1]) == 1]
@@ -485,7 +513,6 @@ def rule_capture_src(ctx):
         if rows:
             n += 1
             ctx.functions.add(cb.key)
-            mv = cb.local_name(2)  # the closure's parameter, whatever it is called
             ok = rows.get(True) == "square::Square::Square{%s.start.rank, %s.dest.file}" % (mv, mv) and rows.get(False) == "%s.dest" % mv
             ctx.check(ok, "get_all_moves:captured-piece-source", "captured_piece = get_piece((start.rank, dest.file)) for en passant, get_piece(dest) otherwise", cb.where(0),
                       bad_what="captured_piece is looked up at %s (en passant must look at (start.rank, dest.file), everything else at dest)" % rows)
